@@ -276,7 +276,7 @@ class FluidPropertyInterExtra(FluidProperty):
                     t_upper_k, t_lower_k)
 
         """
-        mean = (self.prop_getter(upper_limit_arg) + self.prop_getter(upper_limit_arg)) / 2
+        mean = (self.prop_getter(upper_limit_arg) + self.prop_getter(lower_limit_arg)) / 2
         return mean * (upper_limit_arg-lower_limit_arg)
 
     @classmethod
@@ -461,14 +461,14 @@ class FluidPropertyLinear(FluidProperty):
             ul = self.offset * upper_limit_arg.values + 0.5 * self.slope * np.power(
                 upper_limit_arg.values, 2)
         else:
-            ul = self.offset * np.array(upper_limit_arg) + 0.5 * self.slope * np.array(
-                np.power(upper_limit_arg.values, 2))
+            ul = self.offset * np.array(upper_limit_arg) + 0.5 * self.slope * np.power(
+                np.array(upper_limit_arg), 2)
         if isinstance(lower_limit_arg, pd.Series):
             ll = self.offset * lower_limit_arg.values + 0.5 * self.slope * np.power(
                 lower_limit_arg.values, 2)
         else:
-            ll = self.offset * np.array(lower_limit_arg) + 0.5 * self.slope * np.array(
-                np.power(lower_limit_arg.values, 2))
+            ll = self.offset * np.array(lower_limit_arg) + 0.5 * self.slope * np.power(
+                np.array(lower_limit_arg), 2)
         return ul - ll
 
     @classmethod
